@@ -6,7 +6,7 @@
    line splices are modelled (Names/LexDefs.v) and tied by runs only; that every later pass looks only at tokens and ids is carried by
    the end-to-end rewrite runs of tools/props/c05.py. *)
 From Coq Require Import List NArith Bool.
-From CV Require Import Base.Bytes Names.Defs Names.VmProofs Names.LexDefs Names.LexProofs Names.LexProofs2 Names.LexProofs3 Names.ReorderProofs.
+From CV Require Import Base.Bytes Names.Defs Names.VmProofs Names.LexDefs Names.LexProofs Names.LexProofs2 Names.LexProofs3 Names.LexProofs4 Names.ReorderProofs.
 Import ListNotations.
 Local Open Scope N_scope.
 
@@ -149,3 +149,29 @@ Theorem C05_lex_comment_after_slash_refuted :
                   map tstr (filter (fun t => negb (tcomment t)) (lex (render3 ws toks))) <> map stok2_str toks.
 Proof. exact lex_comment_after_slash. Qed.
 Print Assumptions C05_lex_comment_after_slash_refuted.
+
+(* line splices: separators are words over blanks and backslash-blanks-newline. Phase 1 returns exactly the tokens; their
+   positions follow readfile's multiline bookkeeping (positionsb / step_item: a splice keeps the line, lets the column run
+   on and is paid back by the next real newline) - i.e. a token after a splice is reported on the line of the logical line's
+   first physical line, which is what the rewrite's location map has to use for this family. *)
+Theorem C05_lex_render_splice_partial : forall toks ws,
+  length ws = S (length toks) ->
+  Forall (fun w => forallb bitem_ok w = true) ws ->
+  forallb stok_ok toks = true ->
+  sepb_ok ws toks = true ->
+  map tstr (lex1 (renderb ws toks)) = map stok_str toks /\
+  map (fun t => (tline t, tcol t)) (lex1 (renderb ws toks)) = positionsb ws toks (1, 1, 0).
+Proof.
+  intros toks ws H1 H2 H3 H4. rewrite (lex_render_splice toks ws H1 H2 H3 H4).
+  split; [apply expectb_strs | apply expectb_positions]; assumption.
+Qed.
+Print Assumptions C05_lex_render_splice_partial.
+
+Example C05_lex_render_splice_partial_inhabited :
+  let toks := [SName [97]; SName [98]; SOp 43; SName [99]; SOp 59; SName [100]] in
+  let ws := [[]; [BSplice []]; [BBlank 32; BSplice [32; 9]; BBlank 32]; []; []; [BBlank 10]; []] in
+  length ws = S (length toks) /\ forallb (forallb bitem_ok) ws = true /\ forallb stok_ok toks = true /\
+  sepb_ok ws toks = true /\
+  map (fun t => (tstr t, tline t, tcol t)) (lex1 (renderb ws toks)) =
+    [([97], 1, 1); ([98], 1, 3); ([43], 1, 9); ([99], 1, 10); ([59], 1, 11); ([100], 4, 1)].
+Proof. vm_compute. repeat split; reflexivity. Qed.
